@@ -156,6 +156,7 @@ def node(depth, mode, max_depth=4, allow_pbar=False, allow_cast=True, extra=None
 
 # ------------------------------------------------------------------------------------------------ construction
 EXTRA_BUILDERS = {}   # kind -> builder, for leaves a property module adds through node(extra=...)
+EXTRA_MIN = {}        # kind -> structural minimum of such a leaf (default 1)
 
 class Cast:
     def __init__(self, child):
@@ -306,6 +307,8 @@ def struct_min(n):
                     m = max(m, walk(c, d + 1))
             return m
         return walk(n, 0)
+    if k in EXTRA_MIN:
+        return EXTRA_MIN[k](n)
     if k in ("rule", "bar", "pbar") or k in EXTRA_BUILDERS:
         return 1
     raise ValueError(k)
